@@ -485,8 +485,14 @@ def _dir():
 
 
 def teardown():
+    _drop_lazy()
+
+
+def _drop_lazy():
+    """a directory created outside setup() (shrink / --replay) is removed right after the call"""
     if _state.get("lazy"):
-        shutil.rmtree(_state["dir"], ignore_errors=True)
+        shutil.rmtree(_state.pop("dir"), ignore_errors=True)
+        _state["lazy"] = False
 
 
 def _rid(i):
@@ -757,6 +763,13 @@ def _key(inp):
 
 
 def impl(inp):
+    try:
+        return _impl(inp)
+    finally:
+        _drop_lazy()
+
+
+def _impl(inp):
     try:
         if inp["kind"] == "native":
             return _impl_native(inp)
